@@ -885,7 +885,7 @@ func cmdVerify(args []string) {
 			if o.Star {
 				star = "*"
 			}
-			fmt.Printf("   %s %s %-50s %-7s %-6s %4dms %v\n", mark, star, o.Label, o.Result.Status, o.Result.Solver, o.Result.Ms, o.Result.All)
+			fmt.Printf("   %s %s %-50s %-7s %-6s %4dms %v %s\n", mark, star, o.Label, o.Result.Status, o.Result.Solver, o.Result.Ms, o.Result.All, o.Src)
 			if (!o.ok() && keep) || os.Getenv("GOAVC_KEEP") == "all" {
 				f := filepath.Join(os.TempDir(), "goavc-fail-"+strings.NewReplacer("/", "_", "*", "_", "(", "_", ")", "_", "$", "_", "#", "_").Replace(o.Name)+".smt2")
 				os.WriteFile(f, []byte(o.query(w)+"(check-sat)\n(get-model)\n"), 0o644)
